@@ -7,6 +7,7 @@ use serde_json::json;
 
 fn cfg_requests() -> AlphaCfg {
     let mut c = crate::props::c01::pool_cfg();
+    c.burnt_requests = true;
     c.transfers = false;
     c.overpay = false;
     c.mints = true;
@@ -44,7 +45,27 @@ pub fn scenarios(thorough: bool) -> Vec<Scenario> {
     v
 }
 
+/// Amounts near the maximum coin value: deposits of 2^110 into the built-in pools, then several swaps of 2^100 and 2^101 per side and block.
+fn huge_amounts(run: &Run, thorough: bool) {
+    let rootn = root_huge(NetID::Custom02);
+    let mut cfg = cfg_requests();
+    cfg.mints = false;
+    cfg.withdrawals = false;
+    cfg.swaps_per_side = 3;
+    cfg.max_txs_per_block = 3;
+    cfg.only_pools = Some(vec![melstructs::PoolKey::new(melstructs::Denom::Mel, melstructs::Denom::Sym)]);
+    cfg.burnt_requests = false;
+    let eng = crate::stf::Engine::new(run);
+    let c2 = cfg.clone();
+    let acts = move |n: &crate::stf::Node| crate::alphabet::actions(n, &c2);
+    let visit = |_n: &crate::stf::Node| {};
+    let st = crate::stf::bfs(&eng, vec![rootn], if thorough { 8 } else { 7 }, 400_000, &acts, &visit);
+    run.set("scenario:custom02-huge-amounts", json!({"depth_bound_completed": st.depth_completed, "unique_states": st.states, "transitions": st.transitions}));
+    println!("  scenario custom02-huge-amounts: depth {} states {} transitions {}", st.depth_completed, st.states, st.transitions);
+}
+
 pub fn run(run: &Run) {
+    huge_amounts(run, run.thorough());
     for sc in scenarios(run.thorough()) {
         sample_alphabet(run, &sc);
         let st = run_scenario(run, &sc, 2_000_000);
